@@ -38,9 +38,16 @@ func init() {
 			"(e) stream 'burst': the real listener (Server.Start on a loopback address), 2-4 bursts of 4-16 TCP clients released together by a barrier, some " +
 			"connections kept open over the next burst, GOMAXPROCS 1 or 4; each client a strict lock-step dialogue to a mailbox of its own; oracle = the " +
 			"server's output per connection is exactly one 220 and one expected reply per line, nothing unsolicited, closed after 221; after cancel, Start " +
-			"and Drain return and every mailbox holds exactly the messages acknowledged to its client.",
+			"and Drain return and every mailbox holds exactly the messages acknowledged to its client. " +
+			"(f) TLS configured (after seeded change C03-12): a third of the seq sessions and of the wear and burst servers run with TLSEnabled, a throw-away " +
+			"key pair and ForceTLS off; replies are framed exactly as strictly (zero or more 'ddd-' lines, one 'ddd ' line of the same code, nothing else " +
+			"before the next line is sent). In seq about half of those sessions send STARTTLS at a drawn transaction boundary, and whenever STARTTLS is " +
+			"answered 220 the client performs the real crypto/tls handshake over the same in-memory connection; nothing but handshake records may " +
+			"follow until the next command, then the same grammar, automaton (greeting required again), chunked data blocks, disconnects, idle " +
+			"timeouts and store oracle continue inside TLS.",
 		Assumptions: []string{
-			"seq, cut, wear, overlap: sessions are served through VerifServeConn (the real startSession) on an in-memory net.Conn; burst: the real accept loop on loopback TCP; TLS transport is not part of the property",
+			"seq, cut, wear, overlap: sessions are served through VerifServeConn (the real startSession) on an in-memory net.Conn; burst: the real accept loop on loopback TCP",
+			"TLS: the statement does not depend on the transport; a client that got 220 for STARTTLS must start the handshake (the harness always does), and afterwards the session is judged as a new one on the same connection: a greeting is required again before MAIL (RFC 3207 4.2), an envelope open at that moment is not judged; what EHLO offers is counted, not judged; inside TLS the quiescent point is the same logical one and the server's records up to it are decrypted by crypto/tls",
 			"overlap: the listener that holds a delivery returns nil (no opinion), so the address policy decides exactly as without it",
 			"overlap, burst: a valid lock-step dialogue under default accept/store gets 220/250/354/250/221 (what a session alone on a fresh server gets); a failed connect or listen in burst is the machine's business (inconclusive)",
 			"naming 'local', default accept/store, recipient limit 200 or 3, message size limit 10 MB or 400 B: which commands are accepted is observed, not predicted",
@@ -98,6 +105,16 @@ func init() {
 				"burst_messages_stored_identical":                        800,
 				"burst_connections_kept_open_over_the_next_burst":        40,
 				"burst_servers_shut_down":                                40,
+				// TLS configured (after C03-12)
+				"seq_sessions_tls_configured":           1000,
+				"multi_line_replies_tls_configured":     800,
+				"replies_observed_tls_configured_clear": 8000,
+				"starttls_upgrades":                     300,
+				"starttls_upgrades_after_a_transaction": 80,
+				"replies_observed_inside_tls":           3000,
+				"transactions_stored_inside_tls":        200,
+				"wear_servers_tls_configured":           10,
+				"burst_servers_tls_configured":          8,
 			}
 		},
 		// Generous: file-store sessions stall for minutes when other runs saturate the disk.
